@@ -78,8 +78,30 @@ impl World for CnfWorld {
         cfg.insert("big".into(), big as i64);
         cfg.insert("wseed".into(), (c.next() >> 2) as i64);
         // the empty formula must be reachable often enough
+        // one large formula in eight has one very wide clause (27-45 literals of distinct variables) and a few short ones
+        let wide_clause = big && nv >= 30 && c.below(8) == 0;
         let mut ops = if c.below(12) == 0 {
             Vec::new()
+        } else if wide_clause {
+            let mut v = Vec::new();
+            let mut vars: Vec<u64> = (0..nv).collect();
+            o.shuffle(&mut vars);
+            let k = 27 + o.below((nv - 26).min(19)) as usize;
+            let lits: Vec<i64> = vars[..k].iter().map(|x| if o.bool() { *x as i64 + 1 } else { -(*x as i64 + 1) }).collect();
+            for (j, ch) in lits.chunks(4).enumerate() {
+                let mut a = [0i64; 4];
+                a[..ch.len()].copy_from_slice(ch);
+                v.push(Op { c: 0, k: if j == 0 { K_CLAUSE } else { K_CLAUSE_EXT }, a });
+            }
+            for _ in 0..(1 + o.below(4)) {
+                let mut a = [0i64; 4];
+                for slot in a.iter_mut().take(2 + o.below(2) as usize) {
+                    let x = o.below(nv) as i64 + 1;
+                    *slot = if o.bool() { x } else { -x };
+                }
+                v.push(Op { c: 0, k: K_CLAUSE, a });
+            }
+            v
         } else if big {
             let mut v = Vec::new();
             for _ in 0..(5 + c.below(86)) {
@@ -219,6 +241,22 @@ impl World for CnfWorld {
                 prod.is_some()
             }
         };
+        // the first 4000 primes (harness-side sieve, computed once per process outside any run's arena), for the
+        // per-residual bound below
+        static FIRST_PRIMES: std::sync::OnceLock<Vec<u128>> = std::sync::OnceLock::new();
+        let first_primes: &Vec<u128> = FIRST_PRIMES.get_or_init(|| {
+            crate::alloc::with_system(|| {
+                let mut v: Vec<u128> = Vec::with_capacity(4000);
+                let mut x = 2u128;
+                while v.len() < 4000 {
+                    if v.iter().take_while(|p| **p * **p <= x).all(|p| x % *p != 0) {
+                        v.push(x);
+                    }
+                    x += 1;
+                }
+                v
+            })
+        });
         let mut hasher = cnf.hasher().clone();
         let mut model: Vec<Option<bool>> = vec![None; nv];
         let mut mstack: Vec<Vec<Option<bool>>> = Vec::new();
@@ -274,9 +312,15 @@ impl World for CnfWorld {
                     // the caller's model, optionally with extra assignments the hasher was not told about
                     let mut m = model.clone();
                     if op.k == K_HASH_EXTRA {
+                        // extra assignments: one variable, about one in eight, or about half of them
+                        let mask: i64 = match (op.a[3] >> 56) & 3 {
+                            0 => 1i64 << (op.a[2].unsigned_abs() % 60),
+                            1 => op.a[2] & (op.a[2] >> 7) & (op.a[2] >> 13),
+                            _ => op.a[2],
+                        };
                         for v in 0..nv {
-                            if m[v].is_none() && (op.a[2] >> v) & 1 == 1 {
-                                m[v] = Some((op.a[3] >> v) & 1 == 1);
+                            if m[v].is_none() && (mask >> (v % 60)) & 1 == 1 && (v < 60 || (op.a[3] >> 57) & 1 == 1) {
+                                m[v] = Some((op.a[3] >> (v % 56)) & 1 == 1);
                             }
                         }
                     }
@@ -299,7 +343,20 @@ impl World for CnfWorld {
                             by_residual.insert(res.clone(), hs.clone());
                         }
                     }
-                    if product_fits {
+                    // "only then" holds as long as the product of the literal primes fits in 128 bits: for the whole
+                    // formula (product_fits), or at least for this residual -- its literals carry some of the first
+                    // n_occ_all primes, so the product of the largest |residual| of those bounds it
+                    let residual_fits = {
+                        let r_lits: usize = res.iter().map(|(_, c)| c.len()).sum();
+                        r_lits <= 18 && n_occ_all <= 4000 && {
+                            let mut prod: Option<u128> = Some(1);
+                            for p in first_primes.iter().take(n_occ_all).rev().take(r_lits) {
+                                prod = prod.and_then(|x| x.checked_mul(*p));
+                            }
+                            prod.is_some()
+                        }
+                    };
+                    if product_fits || residual_fits {
                         match by_hash.get(&hs) {
                             Some(prev) => {
                                 ctx.check("C15", "hasher-equal-hash-equal-residual", *prev == res, || {
